@@ -98,12 +98,18 @@ pub struct Reach {
     pub invalid_value: bool,
 }
 
-fn note<T>(reach: &mut Reach, r: &Result<T, TypedResponseError>) {
+fn note<T: std::fmt::Debug>(reach: &mut Reach, r: &Result<T, TypedResponseError>) {
     match r {
-        Ok(_) => reach.ok = true,
+        Ok(v) => {
+            reach.ok = true;
+            // reading a decoded value includes printing it: both Debug forms must not panic
+            let _ = format!("{v:?}");
+            let _ = format!("{v:#?}");
+        }
         Err(e) => {
             let s = e.to_string();
             let _ = format!("{e:?}");
+            let _ = format!("{e:#?}");
             let _ = std::error::Error::source(e);
             if s.starts_with("invalid value") {
                 reach.invalid_value = true;
